@@ -43,7 +43,8 @@ def cases(draw, tier):
     cols = [draw(st.integers(0, full)) for _ in range(m)]
     case = {'n': n, 'm': m, 'cols': cols, 'G': G, 'basis': basis, 'kind': kind,
             'normalized': draw(st.integers(0, 4)) == 0,
-            'model_kind': draw(st.sampled_from(['tt', 'tt_str', 'py'])),
+            # 'py_int': a callable answering 0 / 1 instead of False / True, as the library's own tutorial writes them
+            'model_kind': draw(st.sampled_from(['tt', 'tt_str', 'py', 'py_int'])),
             'time_limit': draw(st.sampled_from([None, None, None, None, None, None, None, 60])),
             'again': draw(st.integers(0, 3)) == 0,
             'transport': draw(st.sampled_from(['none', 'none', 'deepcopy', 'pickle'])),
@@ -292,6 +293,8 @@ def check_synthesis(case):
             j = 0
             for a in args:
                 j = (j << 1) | (1 if a else 0)
+            if case['model_kind'] == 'py_int':
+                return [int(table[i][j]) if isinstance(table[i][j], bool) else table[i][j] for i in range(m)]
             return [table[i][j] for i in range(m)]
         model = PyFunctionModel(f, input_size=n, output_size=m)
     ops = _basis_ops(case['basis'])
@@ -446,5 +449,6 @@ SPEC = {
     'assumptions': ['pysat replaced by a z3-backed stand-in: SAT models re-checked, UNSAT answers cross-checked by the reference enumeration'],
     'subs': [Sub('synthesis', cases, check_synthesis, {'quick': 2400, 'thorough': 72000}, shrink_quick=False)],
     'required_classes': {'synthesis': ['found', 'no_solution_confirmed', 'fix:first', 'fix:second', 'fix:both', 'forbid_wire',
-                                       'basis:custom', 'basis:FULL', 'basis:AIG', 'time_limit', 'invalid_constraint_rejected']},
+                                       'basis:custom', 'basis:FULL', 'basis:AIG', 'time_limit', 'invalid_constraint_rejected',
+                                       'model:py_int']},
 }
